@@ -50,12 +50,24 @@ Ltac finish_marshal HR :=
   cbn -[enc]; cbn -[enc_bstr]; rewrite ?enc_bstr_ser; rewrite HR; clear HR.
 
 (* ---------- EC2 ---------- *)
+Lemma pad_to_id size b : len b = size -> pad_to size b = b.
+Proof. intros H. unfold pad_to. rewrite H, Z.sub_diag. reflexivity. Qed.
+
+(* MarshalCBOR: whatever length (1 .. field size) the stored coordinates have, x and y go out as byte strings of
+   exactly the field size *)
 Theorem ec2_key_marshal crv alg bits cx cy od :
-  curve_triple crv alg bits -> len cx = field_size bits -> len cy = field_size bits ->
-  key_marshal (ec2_key crv alg cx cy od) = Acc (ser (ec2_wire crv alg cx cy od)).
+  curve_triple crv alg bits -> 0 < len cx <= field_size bits -> 0 < len cy <= field_size bits ->
+  key_marshal (ec2_key crv alg cx cy od) =
+    Acc (ser (ec2_wire crv alg (pad_to (field_size bits) cx) (pad_to (field_size bits) cy) od)).
 Proof.
   intros Ht Hx Hy.
   destruct Ht as [(-> & -> & ->)|[(-> & -> & ->)|(-> & -> & ->)]]; destruct od as [d|];
+    change (field_size 256) with 32 in *; change (field_size 384) with 48 in *; change (field_size 521) with 66 in *;
+    match goal with |- _ = Acc (ser (ec2_wire _ _ (pad_to ?S _) _ _)) =>
+      remember (pad_to S cx) as PX eqn:EPX; remember (pad_to S cy) as PY eqn:EPY;
+      assert (IX : len cx = S -> PX = cx) by (intros HH; subst PX; apply pad_to_id; exact HH);
+      assert (IY : len cy = S -> PY = cy) by (intros HH; subst PY; apply pad_to_id; exact HH)
+    end;
     match goal with |- _ = Acc ?r => remember r as R eqn:HR end;
     unfold key_marshal;
     match goal with |- context [key_x ?k] =>
@@ -63,10 +75,15 @@ Proof.
       match goal with |- context [curve_size (key_crv k)] =>
         let sz := eval vm_compute in (curve_size (key_crv k)) in change (curve_size (key_crv k)) with sz end
     end;
-    cbv beta iota; change (field_size 256) with 32 in *; change (field_size 384) with 48 in *; change (field_size 521) with 66 in *;
-    rewrite Hx, Hy, !Z.ltb_irrefl, !andb_false_r; unfold ec2_key; finish_marshal HR;
-    unfold ec2_wire, wopt; generalize (tbstr cx) (tbstr cy); intros X Y;
-    try (generalize (tbstr d); intros D); reflexivity.
+    cbv beta iota; rewrite <- ?EPX, <- ?EPY;
+    replace (0 <? len cx) with true by lia; replace (0 <? len cy) with true by lia; cbn [andb];
+    match goal with |- context [len cx <? ?S] => destruct (Z.ltb_spec (len cx) S) as [Lx|Lx] end;
+    match goal with |- context [len cy <? ?S] => destruct (Z.ltb_spec (len cy) S) as [Ly|Ly] end;
+    try (rewrite (IX ltac:(lia)) in HR); try (rewrite (IY ltac:(lia)) in HR); clear IX IY EPX EPY;
+    unfold ec2_key; cbn [k_type k_id k_alg k_ops k_baseiv kparams k_params hmap]; eval_merge;
+    cbn -[enc]; cbn -[enc_bstr]; rewrite ?enc_bstr_ser; rewrite HR; clear HR;
+    unfold ec2_wire, wopt;
+    repeat match goal with |- context [tbstr ?b] => generalize (tbstr b); intro end; reflexivity.
 Qed.
 
 Theorem ec2_key_unmarshal crv alg bits cx cy od :
@@ -127,29 +144,8 @@ Proof.
 Qed.
 
 (* ---------- the whole conversion, Go key -> COSE_Key -> CBOR -> COSE_Key -> Go key ---------- *)
-Lemma pow256 n : 0 <= n -> 256 ^ n = 2 ^ (8 * n).
-Proof. intros H. rewrite Z.pow_mul_r by lia. reflexivity. Qed.
-
-(* big.Int.Bytes(): minimal big-endian bytes *)
-Lemma zbytes_spec d : 0 < d ->
-  bytes_ok (zbytes d) = true /\ be_dec (zbytes d) = d /\ 0 < len (zbytes d) /\
-  (forall n, 0 <= n -> d < 256 ^ n -> len (zbytes d) <= n).
-Proof.
-  intros Hd. unfold zbytes. destruct (d <=? 0) eqn:E; [lia|].
-  pose proof (Z.log2_nonneg d) as Hl.
-  assert (Hk : 0 <= Z.log2 d / 8) by (apply Z.div_pos; lia).
-  split; [apply be_enc_ok|]. split; [|split].
-  - apply be_dec_enc. rewrite Z2Nat.id by lia. split; [lia|].
-    rewrite pow256 by lia. apply Z.log2_lt_pow2; [lia|].
-    pose proof (Z.mod_pos_bound (Z.log2 d) 8 ltac:(lia)). pose proof (Z.div_mod (Z.log2 d) 8 ltac:(lia)). lia.
-  - unfold len. rewrite be_enc_length, Z2Nat.id by lia. lia.
-  - intros n Hn Hlt. unfold len. rewrite be_enc_length, Z2Nat.id by lia.
-    rewrite pow256 in Hlt by lia. apply Z.log2_lt_pow2 in Hlt; [|lia].
-    pose proof (Z.mod_pos_bound (Z.log2 d) 8 ltac:(lia)). pose proof (Z.div_mod (Z.log2 d) 8 ltac:(lia)). lia.
-Qed.
-
 Lemma ec2_key_valid crv alg bits cx cy od op :
-  curve_triple crv alg bits -> len cx = field_size bits -> len cy = field_size bits ->
+  curve_triple crv alg bits -> 0 < len cx <= field_size bits -> 0 < len cy <= field_size bits ->
   match od with Some d => 0 < len d <= field_size bits | None => op <> c_KeyOpSign end ->
   key_validate (ec2_key crv alg cx cy od) op = Acc tt.
 Proof.
@@ -157,7 +153,7 @@ Proof.
   destruct Ht as [(-> & -> & ->)|[(-> & -> & ->)|(-> & -> & ->)]]; destruct od as [d|];
     change (field_size 256) with 32 in *; change (field_size 384) with 48 in *; change (field_size 521) with 66 in *;
     unfold key_validate, ec2_key, key_crv, key_x, key_y, key_d, param_int, param_bytes, decode_int, decode_bytes, kparams;
-    cbn; rewrite ?Hx, ?Hy; cbn;
+    cbn;
     repeat match goal with
            | |- context [?a <? ?b] => destruct (Z.ltb_spec a b); try lia
            | |- context [?a =? ?b] => destruct (Z.eqb_spec a b); try lia
@@ -166,8 +162,8 @@ Qed.
 
 Lemma triple_facts crv alg bits : curve_triple crv alg bits ->
   alg_from_curve bits = alg /\ tbl_lookup tbl_NewKeyEC2_curve alg = Some crv /\ (alg =? c_AlgorithmReserved) = false /\
-  0 <= field_size bits /\ bits_of_alg alg = bits /\ derive_lookup tbl_deriveAlgorithm c_KeyTypeEC2 crv = Some alg.
-Proof. intros [(-> & -> & ->)|[(-> & -> & ->)|(-> & -> & ->)]]; repeat split; try reflexivity; cbv; discriminate. Qed.
+  0 < field_size bits /\ bits_of_alg alg = bits /\ derive_lookup tbl_deriveAlgorithm c_KeyTypeEC2 crv = Some alg.
+Proof. intros [(-> & -> & ->)|[(-> & -> & ->)|(-> & -> & ->)]]; repeat split; reflexivity. Qed.
 
 Lemma size_small bits : supported_bits bits -> field_size bits < two64.
 Proof. intros [->|[->| ->]]; reflexivity. Qed.
@@ -175,94 +171,118 @@ Proof. intros [->|[->| ->]]; reflexivity. Qed.
 Lemma triple_bits crv alg bits : curve_triple crv alg bits -> supported_bits bits.
 Proof. intros [(_ & _ & ->)|[(_ & _ & ->)|(_ & _ & ->)]]; cbv; auto. Qed.
 
-(* everything about a public EC2 key with full-width coordinates, the coordinates being arbitrary *)
-Lemma ec2_public_cbor crv alg bits cx cy :
-  curve_triple crv alg bits -> len cx = field_size bits -> len cy = field_size bits ->
-  bytes_ok cx = true -> bytes_ok cy = true ->
-  key_validate (ec2_key crv alg cx cy None) 0 = Acc tt /\
-  key_marshal (ec2_key crv alg cx cy None) = Acc (ser (ec2_wire crv alg cx cy None)) /\
-  key_unmarshal (ser (ec2_wire crv alg cx cy None)) = Acc (ec2_key crv alg cx cy None) /\
-  key_public (ec2_key crv alg cx cy None) = Acc (PubEC bits (be_dec cx) (be_dec cy)).
+Lemma pad_ok size b : bytes_ok b = true -> bytes_ok (pad_to size b) = true.
 Proof.
-  intros Ht Lx Ly Ox Oy. pose proof (size_small _ (triple_bits _ _ _ Ht)) as Hsm.
+  intros H. unfold pad_to. rewrite bytes_ok_app, H, andb_true_r.
+  induction (Z.to_nat (size - len b)); cbn; auto.
+Qed.
+
+(* everything about a public EC2 key whose stored coordinates have any admissible length *)
+Lemma ec2_public_cbor crv alg bits cx cy :
+  curve_triple crv alg bits -> 0 < len cx <= field_size bits -> 0 < len cy <= field_size bits ->
+  bytes_ok cx = true -> bytes_ok cy = true ->
+  let px := pad_to (field_size bits) cx in let py := pad_to (field_size bits) cy in
+  key_validate (ec2_key crv alg cx cy None) 0 = Acc tt /\
+  key_marshal (ec2_key crv alg cx cy None) = Acc (ser (ec2_wire crv alg px py None)) /\
+  len px = field_size bits /\ len py = field_size bits /\
+  key_unmarshal (ser (ec2_wire crv alg px py None)) = Acc (ec2_key crv alg px py None) /\
+  key_public (ec2_key crv alg cx cy None) = Acc (PubEC bits (be_dec cx) (be_dec cy)) /\
+  key_public (ec2_key crv alg px py None) = Acc (PubEC bits (be_dec cx) (be_dec cy)).
+Proof.
+  intros Ht Lx Ly Ox Oy px py. pose proof (size_small _ (triple_bits _ _ _ Ht)) as Hsm.
+  destruct (pad_to_spec (field_size bits) cx ltac:(lia)) as [Lpx Dpx].
+  destruct (pad_to_spec (field_size bits) cy ltac:(lia)) as [Lpy Dpy]. fold px in Lpx, Dpx. fold py in Lpy, Dpy.
   split; [apply (ec2_key_valid crv alg bits); auto; cbv; discriminate|].
   split; [apply (ec2_key_marshal crv alg bits); auto|].
+  split; [exact Lpx|]. split; [exact Lpy|].
   split.
-  - apply (ec2_key_unmarshal crv alg bits); auto; try exact I; split; auto; lia.
-  - destruct (ec2_public_key_converts crv alg bits cx cy Ht Lx Ly) as (_ & P & _). exact P.
+  - apply (ec2_key_unmarshal crv alg bits); auto; try exact I; split; try lia; apply pad_ok; auto.
+  - split.
+    + destruct (ec2_public_key_converts crv alg bits cx cy Ht Lx Ly) as (_ & P & _). exact P.
+    + destruct (ec2_public_key_converts crv alg bits px py Ht ltac:(lia) ltac:(lia)) as (_ & P & _).
+      rewrite <- Dpx, <- Dpy. exact P.
 Qed.
 
 (* C14, public half, through the wire: every valid point of the three curves *)
 Theorem go_public_key_cbor_roundtrip crv alg bits x y :
   curve_triple crv alg bits ->
   0 <= x < 256 ^ field_size bits -> 0 <= y < 256 ^ field_size bits ->
-  exists k cx cy,
+  exists k k' px py,
     new_key_from_public (PubEC bits x y) = Acc k /\
-    key_marshal k = Acc (ser (ec2_wire crv alg cx cy None)) /\      (* x and y travel as bstr of ... *)
-    len cx = field_size bits /\ len cy = field_size bits /\        (* ... exactly the field size *)
-    be_dec cx = x /\ be_dec cy = y /\
-    key_unmarshal (ser (ec2_wire crv alg cx cy None)) = Acc k /\   (* parsing gives the same COSE_Key *)
-    key_public k = Acc (PubEC bits x y).                            (* which converts back to the same Go key *)
+    key_marshal k = Acc (ser (ec2_wire crv alg px py None)) /\      (* x and y travel as bstr of ... *)
+    len px = field_size bits /\ len py = field_size bits /\        (* ... exactly the field size *)
+    be_dec px = x /\ be_dec py = y /\
+    key_unmarshal (ser (ec2_wire crv alg px py None)) = Acc k' /\   (* parsing gives a COSE_Key ... *)
+    key_public k' = Acc (PubEC bits x y) /\                          (* ... that converts back to the same Go key *)
+    key_public k = Acc (PubEC bits x y).
 Proof.
   intros Ht Hx Hy. destruct (triple_facts _ _ _ Ht) as (A1 & A2 & A3 & Hs & _ & _).
-  destruct (ec_coord_full_width x _ Hs Hx) as (Lx & Ox & Dx).
-  destruct (ec_coord_full_width y _ Hs Hy) as (Ly & Oy & Dy).
+  destruct (ec_coord_spec x _ Hs Hx) as (Lx & Ox & Dx).
+  destruct (ec_coord_spec y _ Hs Hy) as (Ly & Oy & Dy).
   assert (N : new_key_from_public (PubEC bits x y) =
               (let* _ := key_validate (ec2_key crv alg (ec_coord x (field_size bits)) (ec_coord y (field_size bits)) None) 0 in
                Acc (ec2_key crv alg (ec_coord x (field_size bits)) (ec_coord y (field_size bits)) None))).
   { unfold new_key_from_public. rewrite A1, A3. unfold new_key_ec2. rewrite A2. reflexivity. }
   revert N Lx Ox Dx Ly Oy Dy. generalize (ec_coord x (field_size bits)) (ec_coord y (field_size bits)).
   intros cx cy N Lx Ox Dx Ly Oy Dy.
-  destruct (ec2_public_cbor crv alg bits cx cy Ht Lx Ly Ox Oy) as (V & M & U & P).
-  exists (ec2_key crv alg cx cy None), cx, cy. rewrite V in N.
-  repeat (split; auto). rewrite P, Dx, Dy. reflexivity.
+  destruct (ec2_public_cbor crv alg bits cx cy Ht Lx Ly Ox Oy) as (V & M & Lpx & Lpy & U & P & P').
+  destruct (pad_to_spec (field_size bits) cx ltac:(lia)) as [_ Dpx].
+  destruct (pad_to_spec (field_size bits) cy ltac:(lia)) as [_ Dpy].
+  exists (ec2_key crv alg cx cy None), (ec2_key crv alg (pad_to (field_size bits) cx) (pad_to (field_size bits) cy) None),
+         (pad_to (field_size bits) cx), (pad_to (field_size bits) cy).
+  rewrite V in N. rewrite Dx, Dy in P, P'.
+  repeat (split; auto); congruence.
 Qed.
 
 (* the same with private material *)
 Lemma ec2_private_cbor crv alg bits cx cy dd :
-  curve_triple crv alg bits -> len cx = field_size bits -> len cy = field_size bits ->
+  curve_triple crv alg bits -> 0 < len cx <= field_size bits -> 0 < len cy <= field_size bits ->
   bytes_ok cx = true -> bytes_ok cy = true -> bytes_ok dd = true -> 0 < len dd <= field_size bits ->
+  let px := pad_to (field_size bits) cx in let py := pad_to (field_size bits) cy in
   key_validate (ec2_key crv alg cx cy (Some dd)) 0 = Acc tt /\
-  key_marshal (ec2_key crv alg cx cy (Some dd)) = Acc (ser (ec2_wire crv alg cx cy (Some dd))) /\
-  key_unmarshal (ser (ec2_wire crv alg cx cy (Some dd))) = Acc (ec2_key crv alg cx cy (Some dd)) /\
-  key_private (ec2_key crv alg cx cy (Some dd)) = Acc (PrivEC bits (be_dec cx) (be_dec cy) (be_dec dd)).
+  key_marshal (ec2_key crv alg cx cy (Some dd)) = Acc (ser (ec2_wire crv alg px py (Some dd))) /\
+  len px = field_size bits /\ len py = field_size bits /\
+  key_unmarshal (ser (ec2_wire crv alg px py (Some dd))) = Acc (ec2_key crv alg px py (Some dd)) /\
+  (forall ax ay, 0 < len ax <= field_size bits -> 0 < len ay <= field_size bits ->
+     key_private (ec2_key crv alg ax ay (Some dd)) = Acc (PrivEC bits (be_dec ax) (be_dec ay) (be_dec dd))).
 Proof.
-  intros Ht Lx Ly Ox Oy Od Ld. pose proof (size_small _ (triple_bits _ _ _ Ht)) as Hsm.
+  intros Ht Lx Ly Ox Oy Od Ld px py. pose proof (size_small _ (triple_bits _ _ _ Ht)) as Hsm.
+  destruct (pad_to_spec (field_size bits) cx ltac:(lia)) as [Lpx Dpx].
+  destruct (pad_to_spec (field_size bits) cy ltac:(lia)) as [Lpy Dpy]. fold px in Lpx, Dpx. fold py in Lpy, Dpy.
   split; [apply (ec2_key_valid crv alg bits); auto|].
   split; [apply (ec2_key_marshal crv alg bits); auto|].
+  split; [exact Lpx|]. split; [exact Lpy|].
   split.
-  - apply (ec2_key_unmarshal crv alg bits); auto; try (split; auto; lia); lia.
-  - unfold key_private. rewrite (ec2_key_valid crv alg bits) by auto. cbn [bind].
+  - apply (ec2_key_unmarshal crv alg bits); auto; try (split; try lia; try apply pad_ok; auto); lia.
+  - intros ax ay Lax Lay. unfold key_private. rewrite (ec2_key_valid crv alg bits) by auto. cbn [bind].
     destruct (triple_facts _ _ _ Ht) as (_ & _ & _ & _ & B & Dl).
-    unfold derive_alg. change (k_type (ec2_key crv alg cx cy (Some dd))) with c_KeyTypeEC2.
-    replace (key_crv (ec2_key crv alg cx cy (Some dd))) with crv
+    unfold derive_alg. change (k_type (ec2_key crv alg ax ay (Some dd))) with c_KeyTypeEC2.
+    replace (key_crv (ec2_key crv alg ax ay (Some dd))) with crv
       by (destruct Ht as [(-> & _)|[(-> & _)|(-> & _)]]; reflexivity).
     rewrite Dl. cbn [bind].
     replace ((alg =? c_AlgorithmES256) || (alg =? c_AlgorithmES384) || (alg =? c_AlgorithmES512)) with true
       by (destruct Ht as [(_ & -> & _)|[(_ & -> & _)|(_ & -> & _)]]; reflexivity).
-    change (key_x (ec2_key crv alg cx cy (Some dd))) with (Some cx).
-    change (key_y (ec2_key crv alg cx cy (Some dd))) with (Some cy).
-    change (key_d (ec2_key crv alg cx cy (Some dd))) with (Some dd).
-    cbn [glen gor]. rewrite Lx, Ly, B.
-    replace (field_size bits =? 0) with false
-      by (destruct Ht as [(_ & _ & ->)|[(_ & _ & ->)|(_ & _ & ->)]]; reflexivity).
-    reflexivity.
+    change (key_x (ec2_key crv alg ax ay (Some dd))) with (Some ax).
+    change (key_y (ec2_key crv alg ax ay (Some dd))) with (Some ay).
+    change (key_d (ec2_key crv alg ax ay (Some dd))) with (Some dd).
+    cbn [glen gor]. rewrite B.
+    replace (len ax =? 0) with false by lia. replace (len ay =? 0) with false by lia. reflexivity.
 Qed.
 
 Theorem go_private_key_cbor_roundtrip crv alg bits x y d :
   curve_triple crv alg bits ->
   0 <= x < 256 ^ field_size bits -> 0 <= y < 256 ^ field_size bits -> 0 < d < 256 ^ field_size bits ->
-  exists k cx cy dd,
+  exists k k' px py dd,
     new_key_from_private (PrivEC bits x y d) = Acc k /\
-    key_marshal k = Acc (ser (ec2_wire crv alg cx cy (Some dd))) /\
-    len cx = field_size bits /\ len cy = field_size bits /\
-    key_unmarshal (ser (ec2_wire crv alg cx cy (Some dd))) = Acc k /\
-    key_private k = Acc (PrivEC bits x y d).
+    key_marshal k = Acc (ser (ec2_wire crv alg px py (Some dd))) /\
+    len px = field_size bits /\ len py = field_size bits /\
+    key_unmarshal (ser (ec2_wire crv alg px py (Some dd))) = Acc k' /\
+    key_private k' = Acc (PrivEC bits x y d) /\ key_private k = Acc (PrivEC bits x y d).
 Proof.
   intros Ht Hx Hy Hd. destruct (triple_facts _ _ _ Ht) as (A1 & A2 & A3 & Hs & _ & _).
-  destruct (ec_coord_full_width x _ Hs Hx) as (Lx & Ox & Dx).
-  destruct (ec_coord_full_width y _ Hs Hy) as (Ly & Oy & Dy).
-  destruct (zbytes_spec d ltac:(lia)) as (Od & Dd & Pd & Bd). specialize (Bd _ Hs ltac:(lia)).
+  destruct (ec_coord_spec x _ Hs Hx) as (Lx & Ox & Dx).
+  destruct (ec_coord_spec y _ Hs Hy) as (Ly & Oy & Dy).
+  destruct (zbytes_spec d ltac:(lia)) as (Od & Dd & Pd & Bd). specialize (Bd (field_size bits) ltac:(lia) ltac:(lia)).
   assert (N : new_key_from_private (PrivEC bits x y d) =
               (let* _ := key_validate (ec2_key crv alg (ec_coord x (field_size bits)) (ec_coord y (field_size bits)) (Some (zbytes d))) 0 in
                Acc (ec2_key crv alg (ec_coord x (field_size bits)) (ec_coord y (field_size bits)) (Some (zbytes d))))).
@@ -270,9 +290,17 @@ Proof.
   revert N Lx Ox Dx Ly Oy Dy Od Dd Pd Bd.
   generalize (ec_coord x (field_size bits)) (ec_coord y (field_size bits)) (zbytes d).
   intros cx cy dd N Lx Ox Dx Ly Oy Dy Od Dd Pd Bd.
-  destruct (ec2_private_cbor crv alg bits cx cy dd Ht Lx Ly Ox Oy Od ltac:(lia)) as (V & M & U & P).
-  exists (ec2_key crv alg cx cy (Some dd)), cx, cy, dd. rewrite V in N.
-  repeat (split; auto). rewrite P, Dx, Dy, Dd. reflexivity.
+  destruct (ec2_private_cbor crv alg bits cx cy dd Ht Lx Ly Ox Oy Od ltac:(lia)) as (V & M & Lpx & Lpy & U & P).
+  destruct (pad_to_spec (field_size bits) cx ltac:(lia)) as [_ Dpx].
+  destruct (pad_to_spec (field_size bits) cy ltac:(lia)) as [_ Dpy].
+  exists (ec2_key crv alg cx cy (Some dd)), (ec2_key crv alg (pad_to (field_size bits) cx) (pad_to (field_size bits) cy) (Some dd)),
+         (pad_to (field_size bits) cx), (pad_to (field_size bits) cy), dd.
+  rewrite V in N.
+  repeat (split; auto).
+  - cbv zeta in Lpx, Lpy.
+    rewrite (P (pad_to (field_size bits) cx) (pad_to (field_size bits) cy)) by (rewrite ?Lpx, ?Lpy; lia).
+    rewrite Dpx, Dpy, Dx, Dy, Dd. reflexivity.
+  - rewrite (P _ _ Lx Ly), Dx, Dy, Dd. reflexivity.
 Qed.
 
 (* Ed25519: private key = seed ++ public key, 64 bytes *)
@@ -317,7 +345,8 @@ Qed.
 
 (* the premises are satisfiable and the statement is about real bytes: P-256, x = 1, y = 2 *)
 Example key_cbor_example :
-  new_key_from_public (PubEC 256 1 2) = Acc (ec2_key 1 (-7) (repeat 0 31 ++ [1]) (repeat 0 31 ++ [2]) None) /\
-  key_marshal (ec2_key 1 (-7) (repeat 0 31 ++ [1]) (repeat 0 31 ++ [2]) None) =
-    Acc (x "a5010203262001215820" ++ repeat 0 31 ++ [1] ++ x "225820" ++ repeat 0 31 ++ [2]).
-Proof. split; vm_compute; reflexivity. Qed.
+  new_key_from_public (PubEC 256 1 2) = Acc (ec2_key 1 (-7) [1] [2] None) /\
+  key_marshal (ec2_key 1 (-7) [1] [2] None) =
+    Acc (x "a5010203262001215820" ++ repeat 0 31 ++ [1] ++ x "225820" ++ repeat 0 31 ++ [2]) /\
+  new_key_from_public (PubEC 256 0 2) = Acc (ec2_key 1 (-7) (repeat 0 32) [2] None).
+Proof. repeat split; vm_compute; reflexivity. Qed.
